@@ -40,8 +40,44 @@ def copyFactsGen : CopyFacts :=
 /-- The regenerated facts are the values the theorems are proved for and the oracle runs with. -/
 theorem facts_match :
     FactsC08.receiveN = Expected.C08.receiveN ∧ FactsC08.maxSelectNum = Expected.C08.maxSelectNum ∧
-    copyFactsGen = Expected.C08.copyFacts ∧ FactsC08.closeIdempotent = true := by
+    copyFactsGen = Expected.C08.copyFacts ∧ FactsC08.closeIdempotent = true ∧
+    FactsC08.eofByIdentity = Expected.C08.eofByIdentity := by
   decide
+
+/-! ## end of stream = the sentinel io.EOF, nothing else -/
+
+/-- **eof_test_is_identity.** With the comparisons found in the source (`err == io.EOF` /
+    `err != io.EOF` in `parentStreamReader.peek` and in both `toStream` loops, no `errors.Is`
+    or `errors.As` on any receive path), what a source returned is taken for the end of the
+    stream iff it is the sentinel: an error element is an element, whatever its error value
+    wraps or claims (`wraps` arbitrary).  This is what entitles the component models
+    (`CopyCore.fill`, `recvAll`) to decide by the constructor of `Res`. -/
+theorem eof_test_is_identity (wraps : Nat → Bool) (r : Res) :
+    endTest FactsC08.eofByIdentity wraps r = r.isEof := by
+  have h : FactsC08.eofByIdentity = true := by decide
+  cases r <;> simp [endTest, Res.isEof, h]
+
+/-- **forwarder_forwards_every_element.** A forwarding goroutine passes on every element of
+    its source, error elements of either kind included, and nothing after one is lost. -/
+theorem forwarder_forwards_every_element (wraps : Nat → Bool) (l : List Item) :
+    fwdLoop FactsC08.eofByIdentity wraps l = l := by
+  induction l with
+  | nil => rfl
+  | cons x rest ih => simp [fwdLoop, eof_test_is_identity, Res.isEof, ih]
+
+/-- **copy_passes_every_element.** … and so does a copy: `n` receives over a source that holds
+    at least `n` elements return exactly the first `n` of them, whatever they wrap. -/
+theorem copy_passes_every_element (wraps : Nat → Bool) (n : Nat) (l : List Item) (hn : n ≤ l.length) :
+    peekLoop FactsC08.eofByIdentity wraps n l = (l.take n).map Res.item := by
+  induction n generalizing l with
+  | zero => simp [peekLoop]
+  | succ k ih =>
+    cases l with
+    | nil => simp at hn
+    | cons x rest =>
+      simp only [peekLoop, eof_test_is_identity, Res.isEof]
+      simp at hn
+      simp [ih rest hn]
 
 /-- **receiveN_table.** The table in select.go is indexed by `len(chosenList)`, has
     `maxSelectNum + 1` entries, entry `n` selects over exactly `ss[chosenList[0..n)]` and
@@ -361,6 +397,22 @@ example : convDrain (fun v => if v = 2 then .skip else if v = 3 then .fail 30 5 
   rw [convDrain_eq]; decide
 
 /-! ## the other values of the facts break the property (negation witnesses) -/
+
+/-- With `errors.Is(err, io.EOF)` in the forwarder an error element that wraps io.EOF (here:
+    error 7) ends the forwarding: the element is swallowed and everything after it is lost. -/
+theorem forwarder_with_errorsIs_loses_items :
+    fwdLoop false (fun e => e % 3 == 1) [⟨1, 0⟩, ⟨0, 7⟩, ⟨3, 0⟩, ⟨0, 9⟩] = [⟨1, 0⟩] ∧
+    fwdLoop true (fun e => e % 3 == 1) [⟨1, 0⟩, ⟨0, 7⟩, ⟨3, 0⟩, ⟨0, 9⟩] = [⟨1, 0⟩, ⟨0, 7⟩, ⟨3, 0⟩, ⟨0, 9⟩] := by
+  decide
+
+/-- With `!errors.Is(err, io.EOF)` in `peek` a copy returns such an element for ever and never
+    reaches the items behind it nor the end of the stream (opaque error 9 does no harm). -/
+theorem copy_with_errorsIs_repeats_element :
+    peekLoop false (fun e => e % 3 == 1) 4 [⟨1, 0⟩, ⟨0, 7⟩, ⟨3, 0⟩] =
+      [.item ⟨1, 0⟩, .item ⟨0, 7⟩, .item ⟨0, 7⟩, .item ⟨0, 7⟩] ∧
+    peekLoop false (fun e => e % 3 == 1) 4 [⟨1, 0⟩, ⟨0, 9⟩, ⟨3, 0⟩] =
+      [.item ⟨1, 0⟩, .item ⟨0, 9⟩, .item ⟨3, 0⟩, .eof] := by
+  decide
 
 /-- Without `sync.Once` around the fill every child reads the source itself: the second
     child misses the first item. -/
